@@ -31,7 +31,7 @@ FLOORS = {"quick": {"commands_in_one_long_chain": 1200,
                     "parsers_judged_as_deep_copies_of_a_template": 100,
                     "distinct_nontrivial": 300, "command_option_decisions": 10000, "accepted": 3000, "rejected": 3000,
                     "default_command_vectors": 500, "std_option_vectors": 5000,
-                    "graphs_judged_in_an_optimized_interpreter": 1000},
+                    "graphs_judged_in_an_optimized_interpreter": 1000, "self_answering_options_accepted": 500},
           "thorough": {"commands_in_one_long_chain": 1200,
                        "parsers_judged_as_deep_copies_of_a_template": 390,
                        "distinct_nontrivial": 15000, "command_option_decisions": 600000, "accepted": 200000,
@@ -83,6 +83,12 @@ def gen_graph(rng):
             # (no option name is a prefix of another one: argparse accepts unambiguous abbreviations)
             opts.append(("--on-%s-sw" % onm, nm, "on:sw_" + onm.replace("-", "_")))
             opts.append(("--off-%s-sw" % onm, nm, "off:sw_" + onm.replace("-", "_")))
+    if rng.random() < 0.3:
+        # an option that answers by itself and ends the program (prints a version, one more help page)
+        nm = rng.choice(names)
+        kind = rng.choice(["version", "help"])
+        opts.append(("--%s-of-%s" % ("release" if kind == "version" else "more-help", nm.replace("!", "-bang")),
+                     nm if rng.random() < 0.85 else None, "exit:" + kind))
     opts.append(("--g-0", None, True))
     flags = {'_help_if_no_args': rng.random() < 0.3, '_no_log_file': rng.random() < 0.3}
     if rng.random() < 0.2:
@@ -145,7 +151,10 @@ def judge(ctx, g, case):
                 ctx.count("parsers_judged_as_deep_copies_of_a_template")
             for o, owner, flag in g['opts']:
                 kw = {'action': 'store_true'} if flag else {}
-                if isinstance(flag, str):
+                if isinstance(flag, str) and flag.startswith("exit:"):
+                    kw = {'action': 'version', 'version': "release<%s>" % o} if flag == "exit:version" else \
+                        {'action': 'help'}
+                elif isinstance(flag, str):
                     onoff, dest = flag.split(":")
                     kw = {'action': 'store_true' if onoff == "on" else 'store_false', 'dest': dest,
                           'default': None}
@@ -185,13 +194,25 @@ def judge(ctx, g, case):
                 ctx.count("command_option_decisions")
                 if without_cmd:
                     ctx.count("default_command_vectors")
+                exits = paired and flag.startswith("exit:")
+                out = io.StringIO()
                 try:
-                    with contextlib.redirect_stderr(io.StringIO()), contextlib.redirect_stdout(io.StringIO()):
+                    with contextlib.redirect_stderr(io.StringIO()), contextlib.redirect_stdout(out):
                         ns = parse(ap, argv, hash((cmd, o, "route")) % 4 == 0)
                     ok = True
+                    if exits:
+                        problems.append(("self-answering-option-does-not-end-the-program", {"argv": argv}))
+                        continue
                 except SystemExit as err:
                     ok = False
-                    if err.code != 2:
+                    if exits and err.code in (0, None):
+                        # the option was accepted: it has answered (on stdout) and ended the program with success
+                        ok = True
+                        ctx.count("self_answering_options_accepted")
+                        if flag == "exit:version" and ("release<%s>" % o) not in out.getvalue():
+                            problems.append(("version-option-prints-something-else",
+                                             {"argv": argv, "printed": out.getvalue()[:80]}))
+                    elif err.code != 2:
                         problems.append(("rejection-with-unexpected-exit-code", {"argv": argv, "code": err.code}))
                 except Exception as err:
                     problems.append(("parse-raises", {"argv": argv, "type": type(err).__name__, "msg": str(err)[:100]}))
@@ -205,7 +226,7 @@ def judge(ctx, g, case):
                     problems.append((mech, {"argv": argv, "owner": owner, "ancestors": sorted(anc[cmd])}))
                     continue
                 ctx.count("accepted" if ok else "rejected")
-                if ok:
+                if ok and not exits:
                     attr = flag.split(":")[1] if paired else o[2:].replace('-', '_')
                     want_vals = ((flag.startswith("on:"),) if paired else (True,) if flag else (val,))
                     if getattr(ns, attr, "<missing>") not in want_vals:
